@@ -611,6 +611,17 @@ pub fn c17_history(seed: u64) -> Case {
 
 /// Base history for the maintenance twin runs: writes and probes only, no maintenance, no restarts.
 pub fn c14_base(seed: u64) -> Case {
+    if seed % 2 == 0 {
+        // several process lifetimes of a few writes each over a tiny tuple domain (maintenance and knobs
+        // are woven in by the twin construction): clock, frontiers and WAL drain across restarts
+        let mut e = c11_epochs(seed);
+        e.ops.retain(|o| !o.is_maintenance());
+        if matches!(e.ops.last(), Some(Op::Restart)) {
+            e.ops.pop();
+        }
+        e.cfg = EngineCfg::default();
+        return e;
+    }
     let mut rw = Rng::new(seed, P_WORK);
     let mut mix = Mix::data_only();
     mix.kgs = vec!["default".into()];
@@ -624,8 +635,7 @@ pub fn c14_base(seed: u64) -> Case {
     mix.w_compact = 0;
     // restarts are part of the base history (both twins restart at the same points): maintenance must
     // stay invisible across several process lifetimes, not only up to the first restart
-    mix.w_restart = if seed % 2 == 0 { 3 } else { 0 };
-    mix.n_tuples = if seed % 2 == 0 { 3 } else { 4 };
+    mix.w_restart = 0;
     mix.w_drop_rel = 1;
     mix.w_probe = 1;
     let ops = gen_ops(&mut rw, &mix);
